@@ -56,6 +56,11 @@ pub struct Inner {
     fired: Vec<Fired>,
     seq: u64,
     steps: u64,
+    /// scheduling points passed by workers that were not waiting for something (hook yields
+    /// inside the formatter, I/O): a waiter's spin is only charged to the step budget when
+    /// nothing of the kind happened since its previous spin
+    progress: u64,
+    last_wait_seen: HashMap<u32, u64>,
     history: Vec<OpRec>,
     history_hash: u64,
     interleave_hash: u64,
@@ -218,6 +223,8 @@ impl SimWorld {
             fired: vec![],
             seq: 0,
             steps: 0,
+            progress: 0,
+            last_wait_seen: HashMap::new(),
             history: vec![],
             history_hash: 0,
             interleave_hash: 0,
@@ -1531,10 +1538,26 @@ impl World for WorldRef {
             SimWorld::probe(&mut g, tag);
             drop(g);
         }
+        if !tag.ends_with("_wait") {
+            w.lock().progress += 1;
+        }
         if tag == "atomic_access" || tag.ends_with("_wait") || tag == "mutex_lock" || tag == "channel_send" {
             // synchronisation points are few in a correct run; counting them lets a spin loop
             // run into the step budget (bounded liveness) instead of the wall-clock watchdog
             let mut g = w.lock();
+            if tag.ends_with("_wait") {
+                // a waiter is not charged for spins during which the others got on with their
+                // work (a lock held across the formatting of a large file is legitimate; a real
+                // lock would block without consuming anything): only a spin with no progress in
+                // between counts, so that a genuine dead- or livelock still exhausts the budget
+                let marker = g.progress + g.seq;
+                let id = me();
+                if g.last_wait_seen.insert(id, marker) != Some(marker) {
+                    drop(g);
+                    w.sched_yield(OpKind::Yield, tag);
+                    return;
+                }
+            }
             g.steps += 1;
             if g.sc.step_budget > 0 && g.steps > g.sc.step_budget {
                 w.finish_locked(&mut g, Exit::Budget);
